@@ -14,6 +14,29 @@ inline const std::map<std::string, std::string> &poolFiles()
          "  <units name=\"u\"><unit units=\"second\" prefix=\"milli\"/></units>\n"
          "  <component name=\"c\"><variable name=\"x\" units=\"u\" initial_value=\"1\" interface=\"public\"/></component>\n"
          "</model>\n"},
+        // the imported component c is a pure container: only its encapsulated child uses the units of the library
+        {"tree.cellml",
+         "<?xml version=\"1.0\" encoding=\"UTF-8\"?>\n<model xmlns=\"" NS20 "\" name=\"treelib\">\n"
+         "  <units name=\"u\"><unit units=\"second\" prefix=\"milli\"/></units>\n"
+         "  <component name=\"c\"/>\n"
+         "  <component name=\"kid\"><variable name=\"x\" units=\"u\" initial_value=\"1\" interface=\"public\"/></component>\n"
+         "  <encapsulation><component_ref component=\"c\"><component_ref component=\"kid\"/></component_ref></encapsulation>\n"
+         "</model>\n"},
+        // two levels: c (using units u of nest1) encapsulates k, itself imported from nest2 and connected to c, so that the
+        // placeholder k has a variable; the importing document defines another units u, which forces a renaming while flattening
+        {"nest1.cellml",
+         "<?xml version=\"1.0\" encoding=\"UTF-8\"?>\n<model xmlns=\"" NS20 "\" xmlns:xlink=\"http://www.w3.org/1999/xlink\" name=\"nest1\">\n"
+         "  <units name=\"u\"><unit units=\"second\" prefix=\"milli\"/></units>\n"
+         "  <import xlink:href=\"nest2.cellml\"><component name=\"k\" component_ref=\"c2\"/></import>\n"
+         "  <component name=\"c\"><variable name=\"x\" units=\"u\" interface=\"private\"/></component>\n"
+         "  <connection component_1=\"c\" component_2=\"k\"><map_variables variable_1=\"x\" variable_2=\"p\"/></connection>\n"
+         "  <encapsulation><component_ref component=\"c\"><component_ref component=\"k\"/></component_ref></encapsulation>\n"
+         "</model>\n"},
+        {"nest2.cellml",
+         "<?xml version=\"1.0\" encoding=\"UTF-8\"?>\n<model xmlns=\"" NS20 "\" name=\"nest2\">\n"
+         "  <units name=\"u\"><unit units=\"second\" prefix=\"milli\"/></units>\n"
+         "  <component name=\"c2\"><variable name=\"p\" units=\"u\" initial_value=\"1\" interface=\"public\"/></component>\n"
+         "</model>\n"},
         {"v11.cellml",
          "<?xml version=\"1.0\"?>\n<model xmlns=\"http://www.cellml.org/cellml/1.1#\" name=\"lib11\">\n"
          "  <component name=\"c\"><variable name=\"x\" units=\"dimensionless\" initial_value=\"2\" public_interface=\"out\"/></component>\n"
@@ -50,6 +73,15 @@ inline std::string importing(const std::string &file, const std::string &what = 
     }
     s += "</import>\n  <component name=\"main\"><variable name=\"y\" units=\"dimensionless\" initial_value=\"1\"/></component>\n</model>\n";
     return s;
+}
+
+// as importing(file), the importing model defining its own, different units u
+inline std::string importingWithUnits(const std::string &file)
+{
+    return "<?xml version=\"1.0\" encoding=\"UTF-8\"?>\n<model xmlns=\"" NS20 "\" xmlns:xlink=\"http://www.w3.org/1999/xlink\" name=\"top\">\n"
+           "  <units name=\"u\"><unit units=\"metre\"/></units>\n"
+           "  <import xlink:href=\"" + file + "\"><component name=\"ic\" component_ref=\"c\"/></import>\n"
+           "  <component name=\"main\"><variable name=\"y\" units=\"u\" initial_value=\"1\"/></component>\n</model>\n";
 }
 
 inline const std::map<std::string, std::string> &poolTexts()
@@ -107,6 +139,8 @@ inline const std::map<std::string, std::string> &poolTexts()
         {"foreign", "<?xml version=\"1.0\"?>\n<html><body/></html>\n"},
         {"imp_ok", importing("ok.cellml")},
         {"imp_units", importing("ok.cellml", "units")},
+        {"imp_tree", importing("tree.cellml")},
+        {"imp_nest", importingWithUnits("nest1.cellml")},
         {"imp_missing", importing("missing.cellml")},
         {"imp_noent", importing("ok.cellml", "nosuch")},
         {"imp_garbage", importing("garbage.cellml")},
